@@ -92,6 +92,18 @@ CHECKS["C17"] = dict(
          "the real markets and return values, wallet, shares, balances, fee bps, reward and action records are compared "
          "(v1 1e-30, v2 float pipeline 1e-9)")
 
+CHECKS["C07"] = dict(
+    technique="TLA+ spec LiqMath.tla (protocol LiquidityAmounts with its floors, closed-form amounts, the clauses as relations over exact "
+              "rationals); TLC enumerates the case lattice (MC_LiqMath); recorded instances of the real functions validated by TLC with "
+              "the trace spec Trace_LiqMath",
+    design="3/C07",
+    text="TLC enumerates region x range kind (narrow, wide, touching MIN/MAX tick, single spacing) x decimals x amount classes (0, 1 wei, "
+         "typical, 1e12 tokens); each case is instantiated with seeded ticks, prices (incl. exactly on range bounds and one unit inside) and "
+         "amounts; get_liquidity/get_amounts via V3CoreLib.new_position/close_position and UniLpMarket.add_liquidity_by_tick/"
+         "remove_liquidity are recorded and TLC checks no over-spend, maximality up to the stated rounding allowance, one-sidedness, "
+         "non-negativity, closed form at 1e-30, monotonicity in price, proportionality and the exact round trip, and the same clauses for "
+         "the spec's own functions")
+
 NOT_YET = "check not built yet in this round (see DESIGN.md section 3 for the planned spec clauses)"
 
 
